@@ -242,6 +242,12 @@ func runHistory(run *ev.Run, caseID string, hashes []core.InfoHash, idx map[core
 	q := announcequeue.New()
 	m := newModel()
 	var nextsOK, readyPending, ejectPresent, readyIgnored int
+	opCounts := map[string]int64{}
+	defer func() {
+		for k, v := range opCounts {
+			run.Count("ops_"+k, v)
+		}
+	}()
 	mk := func(step int, obs, exp string) witness {
 		hx := make([]string, nh)
 		for i := 0; i < nh; i++ {
@@ -286,7 +292,7 @@ func runHistory(run *ev.Run, caseID string, hashes []core.InfoHash, idx map[core
 			run.Violation("in-flight-set/"+sig, caseID, mk(step, fmt.Sprint(got), fmt.Sprint(want)))
 			return false
 		}
-		run.Count("checkpoints", 1)
+		opCounts["checkpoint"]++
 		return true
 	}
 	ok := true
@@ -306,7 +312,7 @@ func runHistory(run *ev.Run, caseID string, hashes []core.InfoHash, idx map[core
 		}
 		wantH, wantOK := m.apply(o)
 		gotHash, gotOK := applyReal(q, hashes, o)
-		run.Count("ops_"+o.K, 1)
+		opCounts[o.K]++
 		if o.K == "next" {
 			gotH := -1
 			if gotOK {
@@ -385,7 +391,7 @@ func TestC20(t *testing.T) {
 	run.Assume("the queue is used from one goroutine (documented as not thread safe; the scheduler calls it from its event loop only)")
 
 	const workers = 8
-	total := run.N(60000, 2000000)
+	total := run.N(30000, 1200000)
 	per := total / workers
 
 	// fixed universe of hashes for the whole run (seed-determined)
